@@ -25,3 +25,7 @@ func lockSites(tp *kernel.Tape) (func(site string) bool, string) {
 }
 
 func isLockPoint(p string) bool { return p == "lock" || p == "unlock" }
+
+// isSchedPoint also counts the statement-level points the instrumenter puts into
+// the Execute methods of the flow processors.
+func isSchedPoint(p string) bool { return p == "lock" || p == "unlock" || p == "stmt" }
